@@ -92,7 +92,7 @@ def case(ctx, i):
                           "%s: %s removed %s but the opposite direction lists as added %s (only-removed %s, only-added %s) [%s]"
                           % (dirn, label, sorted(removed)[:4], sorted(added)[:4], only_r[:3], only_a[:3], what))
     names = {x.name for x in pr.p.functions + pr.p.variables + pr.q.functions + pr.q.variables}
-    names |= {n + "__v" for n in names}     # implementation names of non-default-versioned functions
+    names |= {n + sfx for n in names for sfx in ("__v", "__n", "__o0")}     # implementation names of versioned functions
     cf, cb = changed_names(rf, names), changed_names(rb, names)
     r.evaluations += 1
     any_change = any_change or bool(cf or cb)
